@@ -155,7 +155,9 @@ func (w *world) call(ctx context.Context, via, kind, rq, id string, r *rand.Rand
 	// a quarter of the requests carry the stream's content namespace on their
 	// outer element (explicitly qualified requests must be correlated too)
 	ns := ""
-	if r.Intn(4) == 0 {
+	if r.Intn(4) == 0 && !w.p.Opts.Component {
+		// (on a component stream the blocking helpers refuse a start element that
+		// spells out the component namespace before anything is sent: not a wait)
 		ns = w.p.Opts.NS()
 		w.c.Count("requests_explicitly_namespaced", 1)
 	}
